@@ -11,6 +11,45 @@ from .engine import Static, static, SpecCtx
 from . import trace
 
 
+def _patterns_for(formula, k):
+    """explicit triggers: the smallest array reads / uninterpreted applications that mention the bound variable
+    (each is an alternative trigger); nested quantifiers are not entered"""
+    cands = {}
+    kid = k.get_id()
+    memo = {}
+    def mentions(t):
+        i = t.get_id()
+        if i in memo:
+            return memo[i]
+        r = (i == kid) or (z3.is_app(t) and any(mentions(c) for c in t.children()))
+        memo[i] = r
+        return r
+    def size(t):
+        return 1 + sum(size(c) for c in t.children()) if z3.is_app(t) else 1
+    stack = [formula]
+    seen = set()
+    while stack:
+        t = stack.pop()
+        if t.get_id() in seen or z3.is_quantifier(t) or not z3.is_app(t):
+            continue
+        seen.add(t.get_id())
+        d = t.decl().kind()
+        if mentions(t) and t.get_id() != kid and (d == z3.Z3_OP_SELECT or d == z3.Z3_OP_UNINTERPRETED) and t.num_args() > 0:
+            # no nested bound-variable-free junk needed; keep
+            cands[t.get_id()] = t
+        stack.extend(t.children())
+    if not cands:
+        return []
+    # drop candidates that contain another candidate (prefer minimal triggers), keep at most 4
+    items = sorted(cands.values(), key=size)
+    chosen = []
+    for t in items:
+        if len(chosen) >= 4:
+            break
+        chosen.append(t)
+    return chosen
+
+
 def _unopt(v):
     """specifications guard Optional operands themselves (`x is not None and x - y > 1`)"""
     return SV(v.ty.inner, v.t[1:]) if isinstance(v.ty, TOpt) else v
@@ -171,6 +210,11 @@ class SpecEval:
                 k = kk
                 bound_sv = SV(coll.ty.k, [kk])
                 guards = [cx.heap.dict_has(coll.ty.k, coll.term, kk)]
+            elif isinstance(coll.ty, TMapSeq):
+                kk = z3.Const(fresh_name(name), coll.ty.k.comps()[0])
+                k = kk
+                bound_sv = SV(coll.ty.k, [kk])
+                guards = [z3.Select(coll.t[0], kk)]
             elif isinstance(coll.ty, (TSeq, TList)):
                 # iterate elements: bind name to element at fresh index
                 idx = k
@@ -187,7 +231,11 @@ class SpecEval:
             guards.append(truthy(self.sev(cond, cx2), cx.heap))
         body = truthy(self.sev(gen.elt, cx2), cx.heap)
         if universal:
-            return mk_bool(z3.ForAll([k], z3.Implies(z3.And(guards) if guards else z3.BoolVal(True), body)))
+            full = z3.Implies(z3.And(guards) if guards else z3.BoolVal(True), body)
+            pats = _patterns_for(full, k)
+            if pats:
+                return mk_bool(z3.ForAll([k], full, patterns=pats))
+            return mk_bool(z3.ForAll([k], full))
         return mk_bool(z3.Exists([k], z3.And(guards + [body])))
 
     # ---- calls
@@ -210,6 +258,19 @@ class SpecEval:
                 a = self.sev(e.args[0], cx); b = self.sev(e.args[1], cx)
                 cx.facts.append(sext(a.term, b.term))
                 return mk_bool(a.term == b.term)
+            if n == 'dictview':
+                # immutable view key -> tuple(list) of a dict of lists, in the current heap
+                d = self.sev(e.args[0], cx)
+                if not (isinstance(d.ty, TDict) and isinstance(d.ty.v, TList)):
+                    raise Unsupported('dictview of %r' % (d.ty,))
+                h = cx.heap
+                ks = d.ty.k.comps()[0]
+                kk = z3.Const(fresh_name('dv'), ks)
+                has = z3.Select(h.get(h.dict_has_key(d.ty.k))[0], d.term)
+                lref = z3.Select(z3.Select(h.get(h.dict_val_keys(d.ty.k, d.ty.v)[0])[0], d.term), kk)
+                lens = z3.Lambda([kk], z3.Select(h.get(h.list_len_key())[0], lref))
+                arrs = z3.Lambda([kk], z3.Select(h.get(h.list_arr_keys(d.ty.v.elem)[0])[0], lref))
+                return SV(TMapSeq(d.ty.k, d.ty.v.elem), [has, lens, arrs])
             if n == 'isinstance':
                 v = self.sev(e.args[0], cx)
                 c = self.sev(e.args[1], cx)
